@@ -167,6 +167,14 @@ func buildRequest(c *kase) (*http.Request, bool) {
 			q.Set("extensions", string(b))
 		}
 		r = httptest.NewRequest("GET", "/graphql?"+q.Encode(), nil)
+	case "get-badparam-variables", "get-badparam-extensions":
+		q := url.Values{}
+		q.Set("query", c.Doc.Text)
+		if c.OpName != "" {
+			q.Set("operationName", c.OpName)
+		}
+		q.Set(strings.TrimPrefix(c.Enc, "get-badparam-"), `{"persistedQuery":{"version":1,"sha256Hash":"abc`) // truncated JSON
+		r = httptest.NewRequest("GET", "/graphql?"+q.Encode(), nil)
 	case "post-json":
 		r = httptest.NewRequest("POST", "/graphql", bytes.NewReader(jsonParams(c, false)))
 		r.Header.Set("Content-Type", "application/json")
@@ -318,6 +326,22 @@ func allCases() []*kase {
 			}
 		}
 	}
+	// GET requests whose `variables` / `extensions` parameter cannot be decoded: refused, whatever
+	// the (otherwise fine) document is
+	for _, d := range docs {
+		if d.Text == "" {
+			continue
+		}
+		for _, name := range d.nameChoices() {
+			for _, enc := range []string{"get-badparam-variables", "get-badparam-extensions"} {
+				for _, a := range []int{0, 1} {
+					for h := range rhSettings {
+						out = append(out, &kase{Doc: d, OpName: name, Enc: enc, Accept: a % len(acceptValues), RH: h, Order: 0, APQ: "none"})
+					}
+				}
+			}
+		}
+	}
 	// requests that no registered transport supports (answered by handler.Server itself)
 	for _, d := range docs[:3] {
 		for _, enc := range noTransportEncodings {
@@ -450,7 +474,7 @@ func judge(c *kase, e *expectation, o *observation) []problem {
 		case o.Status != want:
 			add(statusSignature(c, e, o, mt, want), "%s: status %d, the client-error status for %s is %d", e.Why, o.Status, mt, want)
 		}
-	case "refuse-get-non-query", "refuse-no-transport":
+	case "refuse-get-non-query", "refuse-no-transport", "refuse-bad-parameter":
 		if len(o.Fields) > 0 {
 			add("refused-request-executed:"+tr, "%s: resolver log %v", e.Why, o.Fields)
 		}
@@ -728,6 +752,55 @@ func fidelity(rep *ev.Reporter) int {
 				}
 				rep.Violate(sig, map[string]any{"why": fmt.Sprintf("the client sent the string %q (%s), the resolver's echo is %s (status %d)", v, enc, clip(rec.Body.String()), rec.Code),
 					"encoding": enc, "value": v})
+			}
+		}
+	}
+	// numbers: an Int / ID variable given as a JSON number arrives as that number with every encoding
+	// that carries variables (the answer is the one the JSON POST gives)
+	for _, nv := range []int{7, 0, 12} {
+		query := "query($n: Int!, $id: ID!) { big(n: $n) item(id: $id) { id } }"
+		vars := map[string]any{"n": nv, "id": nv + 1}
+		varBody, _ := json.Marshal(map[string]any{"query": query, "variables": vars})
+		ref := ""
+		for _, enc := range []string{"post-json", "get", "multipart"} {
+			var r *http.Request
+			switch enc {
+			case "get":
+				q := url.Values{}
+				q.Set("query", query)
+				vb, _ := json.Marshal(vars)
+				q.Set("variables", string(vb))
+				r = httptest.NewRequest("GET", "/graphql?"+q.Encode(), nil)
+			case "post-json":
+				r = httptest.NewRequest("POST", "/graphql", bytes.NewReader(varBody))
+				r.Header.Set("Content-Type", "application/json")
+			case "multipart":
+				var buf bytes.Buffer
+				mw := multipart.NewWriter(&buf)
+				mw.WriteField("operations", string(varBody))
+				mw.WriteField("map", "{}")
+				mw.Close()
+				r = httptest.NewRequest("POST", "/graphql", &buf)
+				r.Header.Set("Content-Type", mw.FormDataContentType())
+			}
+			log := &txharness.ReqLog{ID: fmt.Sprintf("fidelity-number|%s|%d", enc, nv), Oneshot: true}
+			r = r.WithContext(txharness.With(context.Background(), log))
+			rec := httptest.NewRecorder()
+			srv.ServeHTTP(rec, r)
+			n++
+			rep.Count("fidelity_requests", 1)
+			rep.Count("fidelity_number_encoding_"+enc, 1)
+			body := rec.Body.String()
+			if enc == "post-json" {
+				ref = body
+				if rec.Code != 200 || strings.Contains(body, `"errors"`) || !strings.Contains(body, `"big"`) {
+					rep.Violate("number-variable-refused:"+enc, map[string]any{"why": "numeric variables over a JSON POST are not answered with data: " + clip(body), "variables": vars})
+				}
+				continue
+			}
+			if rec.Code != 200 || body != ref {
+				rep.Violate("number-changed-in-transit:"+enc, map[string]any{"why": fmt.Sprintf("the same operation with numeric variables %v is answered differently over %s (status %d): %s; JSON POST: %s", vars, enc, rec.Code, clip(body), clip(ref)),
+					"encoding": enc, "variables": vars})
 			}
 		}
 	}
